@@ -6,6 +6,7 @@ from engine import kinds
 from engine.facts import Site, Slicer, norm, operand_local, control_deps, last_field
 from engine.slicing import FlowSlicer, expand_closure_labels
 from rules.c18 import _calls_on_field
+from rules.c01 import DENY as AMBIENT
 
 CRATES = {"shuttle_engine", "shuttle_schedulers"}
 EXPLANATION = (
@@ -33,8 +34,16 @@ def r1_fixed_stream(ctx):
     ctx.ob("C09.R1", "data-source-type", ty == [FX + "FixedDataSource"], "DfsScheduler.data_source is a FixedDataSource: %s" % ty)
     nw = ctx.body(D + "DfsScheduler::new", "C09.R1")
     ini = [(s, t) for s, t in nw.calls() if any(c.endswith("DataSource>::initialize") or c.endswith("DataSource::initialize") for c in nw.callees_of_call(t, passed=False))]
-    ok = bool(ini) and all(prog.const_items(t["args"][0]) == {D + "DFS_RANDOM_SEED"} for s, t in ini)
-    ctx.ob("C09.R1", "constant-seed", ok, "DfsScheduler::new seeds its data source with the constant DFS_RANDOM_SEED", loc=nw.loc())
+    # any seed that is a function of constants and of the constructor's own arguments is "fixed"; an ambient source is not
+    fsn = FlowSlicer(nw, control=False)
+    amb = set()
+    for s, t in ini:
+        for l in fsn.operand_labels(t["args"][0], s):
+            if l.startswith("call:"):
+                amb |= {c for c in prog.may_reach([l[5:]]) | {l[5:]} if AMBIENT.search(c)}
+    ok = bool(ini) and not amb
+    ctx.ob("C09.R1", "constant-seed", ok, "DfsScheduler::new seeds its data source with a value fixed by constants and its own arguments (DFS_RANDOM_SEED), "
+           "no ambient source (OS randomness, time, environment) in its slice: %s" % sorted(amb), loc=nw.loc())
     ri = ctx.body("<" + FX + "FixedDataSource as shuttle_engine::scheduler::data::DataSource>::reinitialize", "C09.R1")
     ini = [(s, t) for s, t in ri.calls() if any(c.endswith("DataSource>::initialize") or c.endswith("DataSource::initialize") for c in ri.callees_of_call(t, passed=False))]
     ok = bool(ini) and all(("field:" + FX + "FixedDataSource.seed") in FlowSlicer(ri, control=False).operand_labels(t["args"][0], s) for s, t in ini)
